@@ -91,7 +91,7 @@ func (o *Odometer) Next() bool {
 
 var namePool = []string{
 	"a", "b", "X", "FOO", "build", "test_all", "_x", "é", "名前", "Ünï", "taskx", "tasks", "Task", "xtask",
-	"lint", "BIN", "out_dir", "ζ", "default", "clean", "q",
+	"lint", "BIN", "out_dir", "ζ", "default", "clean", "q", "a_rather_long_task_name_for_line_wrapping",
 }
 
 var callPool = []string{"join", "exec", "other"}
@@ -99,6 +99,7 @@ var callPool = []string{"join", "exec", "other"}
 var strPieces = []string{
 	"a", "file.go", "**/*.go", "*.txt", " ", "src/", "$HOME", "{", "}", "{{.X}}", "é", "日本", "#", "->", ":=",
 	"(", ")", ",", "task", "'", "\\", "\t", "x y", ".", "", "0", "-", "%s",
+	"a/very/long/path/to/some/source/file/that/goes/on/and/on.go", "another/quite/long/dependency/path/**/*.txt",
 }
 
 var cmdHeads = []string{"echo", "go", "printf", "test", "a", "Z", "mkdir", "true"}
